@@ -112,6 +112,15 @@ int crypto_pwhash_argon2id_str_verify(const char *str, const char *const passwd,
 int crypto_pwhash_argon2i_str_verify(const char *str, const char *const passwd, unsigned long long passwdlen) { (void) str; (void) passwd; (void) passwdlen; which = 2; return src->coreret; }
 int crypto_pwhash_argon2id_str_needs_rehash(const char *str, unsigned long long o, size_t m) { (void) str; (void) o; (void) m; which = 3; return src->coreret; }
 int crypto_pwhash_argon2i_str_needs_rehash(const char *str, unsigned long long o, size_t m) { (void) str; (void) o; (void) m; which = 4; return src->coreret; }
+static unsigned long long d_ops, d_len;
+static size_t             d_mem;
+static int                d_alg;
+int crypto_pwhash_argon2id(unsigned char *const out, unsigned long long outlen, const char *const passwd, unsigned long long passwdlen, const unsigned char *const salt,
+                           unsigned long long opslimit, size_t memlimit, int alg) { which = 5; d_ops = opslimit; d_mem = memlimit; d_len = outlen; d_alg = alg; return src->coreret; }
+int crypto_pwhash_argon2i(unsigned char *const out, unsigned long long outlen, const char *const passwd, unsigned long long passwdlen, const unsigned char *const salt,
+                          unsigned long long opslimit, size_t memlimit, int alg) { which = 6; d_ops = opslimit; d_mem = memlimit; d_len = outlen; d_alg = alg; return src->coreret; }
+int crypto_pwhash_argon2id_str(char out[128], const char *const passwd, unsigned long long passwdlen, unsigned long long opslimit, size_t memlimit) { which = 7; d_ops = opslimit; d_mem = memlimit; return src->coreret; }
+int crypto_pwhash_argon2i_str(char out[128], const char *const passwd, unsigned long long passwdlen, unsigned long long opslimit, size_t memlimit) { which = 8; d_ops = opslimit; d_mem = memlimit; return src->coreret; }
 #endif
 
 VERIF_MAIN
@@ -293,6 +302,25 @@ VERIF_MAIN
         r = crypto_pwhash_str_needs_rehash(str, 3, 8192);
         CHECK(which == (is_id ? 3 : is_i ? 4 : 0), "str_needs_rehash dispatches on the algorithm prefix only");
         if (!is_id && !is_i) CHECK(r == -1, "unknown prefix: -1");
+        /* algorithm dispatch of the raw and string APIs */
+        {
+            static unsigned char o[16], salt[16];
+            static char          so[128];
+            which = 0; errno = 0;
+            r = crypto_pwhash(o, in.outlen, "x", 1, salt, in.opslimit, (size_t) in.memlimit, in.alg);
+            if (in.alg == 1) { CHECK(which == 6 && r == in.coreret, "alg 1 -> Argon2i"); }
+            else if (in.alg == 2) { CHECK(which == 5 && r == in.coreret, "alg 2 -> Argon2id"); }
+            else { CHECK(which == 0 && r == -1 && errno == EINVAL, "unknown algorithm: -1 / EINVAL, nothing invoked"); }
+            if (which) CHECK(d_ops == in.opslimit && d_mem == (size_t) in.memlimit && d_len == in.outlen && d_alg == in.alg, "parameters forwarded unchanged");
+            which = 0;
+            r = crypto_pwhash_str(so, "x", 1, in.opslimit, (size_t) in.memlimit);
+            CHECK(which == 7 && r == in.coreret && d_ops == in.opslimit && d_mem == (size_t) in.memlimit, "crypto_pwhash_str uses the default algorithm (Argon2id)");
+            which = 0;
+            verif_misuse_expected = !(in.alg == 1 || in.alg == 2);
+            r = crypto_pwhash_str_alg(so, "x", 1, in.opslimit, (size_t) in.memlimit, in.alg);
+            MISUSE_MUST_HAVE_FIRED();
+            CHECK(which == (in.alg == 1 ? 8 : 7) && r == in.coreret, "crypto_pwhash_str_alg dispatches on alg; unknown algorithm is a misuse");
+        }
     }
 #endif
     (void) r;
